@@ -886,6 +886,7 @@ ssize_t vp_read(int fd, void *buf, size_t n)
   if (!vp_fd_ok(fd)) {
     VP_ASSERT(C05, false, "read() on a descriptor that is not open");
     VP_ASSERT(C14, false, "read() on a descriptor that is not open");
+    VP_ASSERT(C20, false, "read() on a descriptor that is not open (a field the reader does not own?)");
     return vp_fail(EBADF);
   }
   int o = vp_fd_ofd[fd];
@@ -984,6 +985,7 @@ ssize_t vp_write(int fd, const void *buf, size_t n)
   if (!vp_fd_ok(fd)) {
     VP_ASSERT(C05, false, "write() on a descriptor that is not open");
     VP_ASSERT(C14, false, "write() on a descriptor that is not open");
+    VP_ASSERT(C20, false, "write() on a descriptor that is not open (a field the writer does not own?)");
     return vp_fail(EBADF);
   }
   int o = vp_fd_ofd[fd];
